@@ -114,7 +114,8 @@ def main(tier):
                 ("stress", ["-rounds", "2000" if not run.thorough else "20000"]),
                 ("sched", ["-g", "2"]), ("sched", ["-g", "3"]),
                 ("apreq-stress", ["-rounds", "300" if not run.thorough else "3000"]), ("apreq-sched", ["-g", "2"]), ("apreq-sched", ["-g", "3"]),
-                ("apreq-dated", ["-len", "4" if not run.thorough else "6"])]
+                ("apreq-dated", ["-len", "4" if not run.thorough else "6"]),
+                ("apreq-background", ["-rounds", "40" if not run.thorough else "400"])]
         if run.thorough:
             jobs += [("sched", ["-g", "4"]), ("timed", ["-len", "5", "-skewms", "1000"])]
         histories = []
@@ -136,7 +137,7 @@ def main(tier):
             raise vlib.Inconclusive("too many time-ambiguous operations (%d of %d): machine too loaded for the timed histories" % (amb, len(ops)))
         # histories that contain a replay verdict or concurrency are the non-trivial ones
         def nontrivial(h):
-            return any(e["ev"] == "ret" and e["r"] == "replay" for e in h) or h[0].get("kind") in ("stress", "sched", "apreq-stress", "apreq-sched", "apreq-dated")
+            return any(e["ev"] == "ret" and e["r"] == "replay" for e in h) or h[0].get("kind") in ("stress", "sched", "apreq-stress", "apreq-sched", "apreq-dated", "apreq-background")
         run.cov["distinct_nontrivial"] = len({json.dumps([{k: v for k, v in e.items() if k not in ("seq", "op", "now")} for e in h], sort_keys=True)
                                               for h in histories if nontrivial(h)})
         run.cov["rule"] = ("histories of the real replay cache: all words up to length 4 (thorough 5) over 8 near-miss authenticators + clean-up, "
@@ -176,7 +177,7 @@ def main(tier):
         for h, pos in rejected:
             kind = h[0].get("kind")
             facts = {"kind": kind, "scenario": h[0].get("scenario", ""), "word": h[0].get("word", ""), "verdicts": [e["r"] for e in h if e["ev"] == "ret"]}
-            if kind in ("stress", "sched", "timed", "apreq-stress", "apreq-sched", "apreq-dated"):
+            if kind in ("stress", "sched", "timed", "apreq-stress", "apreq-sched", "apreq-dated", "apreq-background"):
                 facts = {"kind": kind, "scenario": h[0].get("scenario", ""), "word": h[0].get("word", "")}
             run.violation(facts, {"history": h, "first_unexplained_event": pos})
         run.assumptions += ["one clock-skew setting per process (the singleton's cleaner keeps the first caller's duration); the harness makes it inert (24h) and calls ClearOldEntries itself",
